@@ -116,6 +116,10 @@ pub fn deque_max(q: &VecDeque<T>) -> (r: Option<T>)
     ensures q@.len() == 0 ==> r.is_none(), q@.len() > 0 ==> r.is_some() && is_max_of(r.unwrap(), q@)
 { unimplemented!() }
 
+// R9: a constructor whose own assert! fires panics, i.e. it does not accept its arguments; the properties quantify over accepted arguments only
+#[verifier::external_body]
+pub fn ctor_reject() ensures false { panic!("constructor rejected its arguments") }
+
 #[verifier::external_body]
 pub fn vec_last(v: &Vec<T>) -> (r: Option<T>)
     ensures r == (if v@.len() > 0 { Some(v@[v@.len() - 1]) } else { None::<T> })
